@@ -30,6 +30,47 @@ class Source:
         return "<Source %s %s %s>" % (self.kind, self.where, self.text[:50])
 
 
+_STR_METHODS = {"join", "format", "decode", "isoformat", "strip", "rstrip", "lstrip", "replace", "lower", "upper", "title"}
+_STR_FUNCS = {"str", "repr", "safeunicode", "saferepr", "_safe_unicode_dictionary", "format", "chr"}
+
+
+def _known_str(e):
+    if isinstance(e, ast.Constant):
+        return isinstance(e.value, str)
+    if isinstance(e, ast.JoinedStr):
+        return True
+    if isinstance(e, ast.BinOp) and isinstance(e.op, ast.Add):
+        return _known_str(e.left) and _known_str(e.right)
+    if isinstance(e, ast.BinOp) and isinstance(e.op, ast.Mod) and isinstance(e.left, ast.Constant) and isinstance(e.left.value, str):
+        return True
+    if isinstance(e, ast.Call):
+        if isinstance(e.func, ast.Attribute) and e.func.attr in _STR_METHODS:
+            return True
+        if isinstance(e.func, ast.Name) and e.func.id in _STR_FUNCS:
+            return True
+    return False
+
+
+def _flatten_add(e, out):
+    if isinstance(e, ast.BinOp) and isinstance(e.op, ast.Add):
+        _flatten_add(e.left, out)
+        _flatten_add(e.right, out)
+    else:
+        out.append(e)
+
+
+def _untyped_str_concat(n):
+    """Top-level `a + "lit" + b` where some operand is an attribute chain of an object the
+    library does not own (e.g. exception.__class__.__module__): `+` raises TypeError
+    if that attribute is not a str, whereas %-formatting never does."""
+    ops = []
+    _flatten_add(n, ops)
+    if not any(isinstance(o, ast.Constant) and isinstance(o.value, str) for o in ops):
+        return False
+    bad = [o for o in ops if not _known_str(o) and isinstance(o, ast.Attribute) and not (isinstance(o.value, ast.Name) and o.value.id == "self")]
+    return bool(bad)
+
+
 def handler_reraises(h):
     """Does the handler body contain a bare `raise` (or `raise <bound name>`) at its own
     level (not inside a nested try that catches it again)?"""
@@ -92,7 +133,17 @@ class Containment:
                     det = "; ".join(t.detail or str(t.ref) for t in s.targets if t.kind in ("foreign", "unknown", "ext", "builtin"))
                     src = Source(k, f, s.lineno, s.text, det, s.call)
                     lst.append((src, protecting_handler(s.ctx) is not None, s.ctx))
+            inner_adds = set()
             for n in iter_own_nodes(f.node):
+                if isinstance(n, ast.BinOp) and isinstance(n.op, ast.Add):
+                    for ch in (n.left, n.right):
+                        if isinstance(ch, ast.BinOp) and isinstance(ch.op, ast.Add):
+                            inner_adds.add(id(ch))
+            for n in iter_own_nodes(f.node):
+                if isinstance(n, ast.BinOp) and isinstance(n.op, ast.Add) and id(n) not in inner_adds and _untyped_str_concat(n):
+                    ctx = ctxmap.get(id(n), [])
+                    src = Source("foreign", f, n.lineno, unparse(n), "str + <attribute of a caller-supplied object>: TypeError unless it is a str", n)
+                    lst.append((src, protecting_handler(ctx) is not None, ctx))
                 if isinstance(n, ast.Raise):
                     ctx = ctxmap.get(id(n), [])
                     cls = ""
